@@ -531,18 +531,22 @@ impl BDF {
                         // Update derivatives at new (x, y).
                         f.ode(x, &y, &mut f0);
                         evals.ode += 1;
-                        d[0].copy_from_slice(&y);
-                        for i in 0..n {
-                            d[1][i] = f0[i] * current_h * direction;
+                        // The difference history belongs to the old state: restart from the state the
+                        // callback wrote (a state handed back unchanged keeps its history)
+                        if y != y_new {
+                            d[0].copy_from_slice(&y);
+                            for i in 0..n {
+                                d[1][i] = f0[i] * current_h * direction;
+                            }
+                            for k in 2..d.len() {
+                                d[k].fill(0.0);
+                            }
+                            order = 1;
+                            n_equal_steps = 0;
+                            f.jac(x, &y, &mut jac);
+                            evals.jac += 1;
+                            lu_is_current = false;
                         }
-                        for k in 2..d.len() {
-                            d[k].fill(0.0);
-                        }
-                        order = 1;
-                        n_equal_steps = 0;
-                        f.jac(x, &y, &mut jac);
-                        evals.jac += 1;
-                        lu_is_current = false;
                     }
                     ControlFlag::XOut(_) => {}
                 }
